@@ -333,6 +333,12 @@ func stringifyKeys(v interface{}) interface{} {
 }
 
 func (cl *Loader) decode(cm map[string]interface{}) (*configDefinition, error) {
+	// YAML allows keys that are not strings (numbers, booleans, null); mapstructure panics on a
+	// null key inside a structure, so every key is turned into its string form first
+	for k, v := range cm {
+		cm[k] = stringifyKeys(v)
+	}
+
 	c := &configDefinition{}
 	md, _ := mapstructure.NewDecoder(&mapstructure.DecoderConfig{
 		DecodeHook: mapstructure.ComposeDecodeHookFunc(
